@@ -34,6 +34,7 @@ type pending struct {
 	until  time.Time // idle-sleep: wake at this instant
 	isIdle bool
 	aux    int // >1: the thread offers this many alternatives (select preference)
+	lock   *LockState
 }
 
 // Thread is one scheduled goroutine.
@@ -666,7 +667,20 @@ func (s *Sched) loop(res *Result) {
 			// deadlock diagnosis
 			for _, t := range s.threads {
 				if t.state == stParked && (t.pend.kind == "lock" || t.pend.kind == "rlock" || t.pend.kind == "lock-acquire") {
-					res.StuckLocks = append(res.StuckLocks, fmt.Sprintf("%s waits %s %s", t.Name, t.pend.kind, t.pend.obj))
+					holder := ""
+					if l := t.pend.lock; l != nil {
+						switch {
+						case l.writer != nil:
+							holder = fmt.Sprintf(" [write-held by %s since %s]", l.writer.Name, l.site)
+						case l.writerUnmgd:
+							holder = " [write-held by an unmanaged goroutine since " + l.site + "]"
+						case len(l.readers) > 0 || l.readersUnmgd > 0:
+							holder = fmt.Sprintf(" [read-held by %d thread(s), %d unmanaged]", len(l.readers), l.readersUnmgd)
+						case l.pendingW > 0:
+							holder = fmt.Sprintf(" [%d pending writer(s)]", l.pendingW)
+						}
+					}
+					res.StuckLocks = append(res.StuckLocks, fmt.Sprintf("%s waits %s %s%s", t.Name, t.pend.kind, t.pend.obj, holder))
 				}
 			}
 			s.mu.Unlock()
